@@ -270,6 +270,38 @@ def install(w):
         return prev_with(it, node)
     w.with_ext = with_ext
 
+    def b_zip(it, f, args, kw, node):
+        """zip(a, b[, strict=...]) of two sequences."""
+        from .world import Seq
+        if len(args) != 2:
+            raise Unsupported("zip of other than two sequences")
+        sa = w.as_sequence(it, args[0], node)
+        sb = w.as_sequence(it, args[1], node)
+        strict = kw.get("strict")
+        is_strict = isinstance(strict, VBool) and z3.is_true(z3.simplify(strict.t))
+        w.trusted_used.add("zip(a, b): pairs up to the shorter length; strict=True raises "
+                           "ValueError when the lengths differ")
+
+        def length(sq):
+            return z3.IntVal(len(sq.concrete)) if sq.concrete is not None else sq.length
+
+        def item(sq, i):
+            if sq.concrete is not None:
+                raise Unsupported("zip of a literal sequence with a symbolic one")
+            return sq.item(i)
+        la, lb = length(sa), length(sb)
+        if is_strict:
+            it.guard(la == lb, ValueError, node, "SAFE-Value")
+        v = VOpaque("zip")
+        if sa.concrete is not None and sb.concrete is not None:
+            n = min(len(sa.concrete), len(sb.concrete))
+            v.seq = Seq(concrete=[_VTuple([sa.concrete[k], sb.concrete[k]]) for k in range(n)])
+        else:
+            n = z3.If(la <= lb, la, lb)
+            v.seq = Seq(length=z3.simplify(n), item=lambda i: _VTuple([item(sa, i), item(sb, i)]))
+        return v
+    w.builtins["bi:zip"] = b_zip
+
     def b_exc_info(it, f, args, kw, node):
         w.trusted_used.add("sys.exc_info(): a 3-tuple of unknown values")
         return _VTuple([it.fresh_dyn("exc_type"), it.fresh_dyn("exc_value"), it.fresh_dyn("exc_tb")])
